@@ -10,7 +10,7 @@ import (
 )
 
 func genWire(t *rapid.T) WireCase {
-	c := WireCase{Op: rapid.SampledFrom([]string{"create", "create", "cas", "casretry", "putmany", "put"}).Draw(t, "op")}
+	c := WireCase{Op: rapid.SampledFrom([]string{"create", "create", "cas", "casretry", "putmany", "put", "waitprolong", "waitprolong"}).Draw(t, "op")}
 	c.ExpMs = rapid.IntRange(5, 12).Draw(t, "exp100") * 100
 	ncmd := 3
 	switch c.Op {
@@ -86,6 +86,9 @@ func TestC06RedisWire(t *testing.T) {
 			}
 			batch = append(batch, c)
 		}
+	}
+	for _, lead := range []int{10, 25, 40, 55, 70} {
+		batch = append(batch, WireCase{Op: "waitprolong", OldExpMs: 150, LeadMs: lead}, WireCase{Op: "waitprolong", OldExpMs: 90, LeadMs: lead})
 	}
 	runWireBatch(t, "TestC06RedisWire", batch)
 	rapid.Check(t, func(rt *rapid.T) {
